@@ -64,7 +64,7 @@ package codec
 
 // Compression is on exactly for thresholds >= 0 (0 = compress everything, -1 = off), as on the encoder side.
 //@ func (*Decoder).SetCompressionThreshold
-//@   props C01 C02
+//@   props C01 C02 C15
 //@   ensures [on-iff-threshold-nonnegative] d.compressionThreshold == threshold && d.compression == (threshold >= 0)
 
 // Empty frames are skipped at most 11 times.
@@ -110,7 +110,7 @@ package codec
 // ---- C01: what the encoder frames is what the decoder (C02) unframes ------------------------------------------------
 // Compression is on exactly for thresholds >= 0 - the same rule as Decoder.SetCompressionThreshold.
 //@ func (*Encoder).SetCompression
-//@   props C01
+//@   props C01 C15
 //@   at-store threshold: assert value == threshold
 //@   at-store enabled: assert [on-iff-threshold-nonnegative] value == (threshold >= 0)
 //@   at-call NewWriterLevel as zw: assert threshold >= 0 && arg1 == level
